@@ -576,7 +576,11 @@ func (s *AbsfsNFS) CreateWithContext(ctx context.Context, dir *NFSNode, name str
 		return nil, fmt.Errorf("create: failed to sanitize path: %w", err)
 	}
 
-	f, err := s.fs.Create(path)
+	// O_EXCL: CREATE makes a new file or fails with an error for which
+	// os.IsExist is true. It never opens (and so never truncates) an object
+	// that is already there; what an existing name means is decided by the
+	// caller from the create mode.
+	f, err := s.fs.OpenFile(path, os.O_CREATE|os.O_EXCL|os.O_RDWR, attrs.Mode&os.ModePerm)
 	if err != nil {
 		return nil, fmt.Errorf("create: failed to create %s: %w", path, err)
 	}
